@@ -1453,6 +1453,13 @@ class Run:
         if e is None or e["cls"] not in ("Node", "T", "A", "K") or OS.state_of(o) != "persistent":
             return r
         pk = OS.pk_of(o)
+        # a row switch UPDATEs the columns the new object has values for and leaves the others as they are in the row (long-standing
+        # behaviour, visible to the application only as attributes that load the old values).  A foreign key left behind that way is
+        # a reference no object in the session stands for, so the row must not hold one
+        tab = self.tab_of(e["cls"])
+        own = self.prev_tables[tab].get(pk)
+        if own is None or any(own[self.U["tables"][tab].index(c)] is not None for c in {"node": ["parent_id"], "a": ["k_name"]}.get(tab, [])):
+            return r
         C = self.U["classes"][e["cls"]]
         if e["cls"] == "K":
             new = C(name=pk, val=a2, memo="rs%d" % a2)
